@@ -5,15 +5,16 @@ import gen_harness
 
 HEADER_COMMON = ("From Coq Require Import String ZArith.\n"
                  "From QV Require Import Rt.Prelude Rt.Show Rt.Amount Rt.Quantity Macro.Defs Gen.Prefixes Gen.Catalogue "
-                 "Gen.Kernels Gen.KernelsFmt Macro.Inst Macro.TempInst Proofs.Eval.\n")
+                 "Gen.Kernels Gen.KernelsFmt Macro.Inst Macro.TempInst Rt.Serde Proofs.Eval.\n")
 
 
 class F64Backend:
     name = "f64"
     cfg = "f64"
     header = (HEADER_COMMON + "From Flocq Require Import IEEE754.Bits.\nFrom QV Require Import Amount.F64.\n"
-              "Definition AM := F64.\nDefinition sa : A AM -> string := show_f64.\nDefinition pa (z : Z) : A AM := b64_of_bits z.\n")
-    targets = ["Amount/F64.vo", "Proofs/Eval.vo", "Gen/Catalogue.vo", "Gen/KernelsFmt.vo", "Macro/TempInst.vo"]
+              "Definition AM := F64.\nDefinition sa : A AM -> string := show_f64.\nDefinition pa (z : Z) : A AM := b64_of_bits z.\n"
+              "Definition ENC : A AM -> sval := enc_f64.\nDefinition DCD : sval -> option (A AM) := dcd_f64.\n")
+    targets = ["Amount/F64.vo", "Proofs/Eval.vo", "Gen/Catalogue.vo", "Gen/KernelsFmt.vo", "Macro/TempInst.vo", "Rt/Serde.vo"]
 
     @staticmethod
     def amt(tok):
@@ -24,8 +25,9 @@ class DecBackend:
     name = "dec"
     cfg = "dec"
     header = (HEADER_COMMON + "From QV Require Import Amount.DecModel Amount.Dec.\n"
-              "Definition AM := DEC.\nDefinition sa : A AM -> string := show_dec.\nDefinition pa (c n : Z) : A AM := mkdec c n.\n")
-    targets = ["Amount/Dec.vo", "Proofs/Eval.vo", "Gen/Catalogue.vo", "Gen/KernelsFmt.vo", "Macro/TempInst.vo"]
+              "Definition AM := DEC.\nDefinition sa : A AM -> string := show_dec.\nDefinition pa (c n : Z) : A AM := mkdec c n.\n"
+              "Definition ENC : A AM -> sval := fun d => VStr (dec_to_string d).\nDefinition DCD : sval -> option (A AM) := fun v => match v with VStr s => dec_from_str s | _ => None end.\n")
+    targets = ["Amount/Dec.vo", "Proofs/Eval.vo", "Gen/Catalogue.vo", "Gen/KernelsFmt.vo", "Macro/TempInst.vo", "Rt/Serde.vo"]
 
     @staticmethod
     def amt(tok):
@@ -88,6 +90,12 @@ class ModelExpr:
             if T == "AMOUNT":
                 return f"show_ustr (Quantity_fmt {I} {self.q(T, a[0], a[1])} {sp})"
             return f"show_ustr (tmpl_Display_Qty_none_{self.path(T)} {I} {self.q(T, a[0], a[1])} {sp})"
+        if op in ("ser", "rt_value", "rt_text", "ser_unit", "rt_unit"):
+            g = f"(ce_gen {T})"
+            if op == "ser": return f"show_qty_sval (ser_qty AM ENC {g} {self.q(T, a[0], a[1])})"
+            if op == "ser_unit": return f"match ser_unit {g} {int(a[0])}%nat with VStr s => show_ustr s | _ => \"?\" end"
+            if op == "rt_unit": return f"match de_unit {g} (ser_unit {g} {int(a[0])}%nat) with Some u => show_nat u | None => \"DE-ERROR\" end"
+            return f"match de_qty AM DCD {g} (ser_qty AM ENC {g} {self.q(T, a[0], a[1])}) with Some q => {sq} q | None => \"DE-ERROR\" end"
         if op == "units": return f"show_units {I}"
         if op == "consts": return f"show_consts {T}"
         if op == "scales": return f"show_scales sa {I}"
@@ -175,10 +183,10 @@ class ModelExpr:
         raise fw.Failure("infra", f"no model expression for rate op {op}")
 
 
-def run_both(ctx, backend_name, ops, tag):
+def run_both(ctx, backend_name, ops, tag, cfg=None):
     """runs the op lines on implementation and model; returns (impl, model|None)"""
     b = BACKENDS[backend_name]
-    impl = fw.run_harness(ctx.harness(b.cfg), ops, ctx.log)
+    impl = fw.run_harness(ctx.harness(cfg or b.cfg), ops, ctx.log)
     model = None
     if ctx.model_ok:
         fw.coq_make(b.targets, ctx.log)
